@@ -185,6 +185,15 @@ def validate(trace, tick=False, label=''):
     res['violations'] = sorted(set(res['violations']))
     return res, lines, scs
 
+def validate_obs(trace, cfg='RulerObsReal'):
+    """observation mode only (executions of the real binary: free-running threads, no step-level conformance)"""
+    lines = read_trace(trace)
+    scs = scenarios_of(lines)
+    o = tlc_trace('RulerObs', cfg, trace)
+    if o['accepted'] is None: raise ToolError('observation-mode pass stopped at record %s of %s' % (o['rejected'], trace))
+    res = {'events': len(lines), 'scenarios': len(scs), 'violations': sorted(set((v[0], v[1]) for v in o['violations'])), 'divergences': [], 'strict_accepted_events': 0}
+    return res, lines, scs
+
 def extract_scenario(lines, scs, scn, dest):
     for (sid, a, b) in scs:
         if sid == scn:
